@@ -282,6 +282,12 @@ int tokens_get(AsmContext *asm_context, char *token, int len)
 #ifdef DEBUG
 //printf("debug> tokens_get, grabbing next char ptr=%d\n", ptr);
 #endif
+    if (ptr >= len - 1)
+    {
+      print_error(asm_context, "Token is too long");
+      exit(1);
+    }
+
     ch = tokens_get_char(asm_context);
 #ifdef DEBUG
 //printf("debug> getc()='%c'  ptr=%d  token='%s'\n", ch, ptr, token);
